@@ -417,9 +417,15 @@ HSetTrl(h, md) ==
 
 HRet(h, code, msg, ndet, pay) ==
   /\ h \in DOMAIN hnds /\ ~hnds[h].ret
-  /\ LET id == hnds[h].id IN
+  /\ LET id == hnds[h].id
+         its == Sin(id).items
+         \* the server's read loop looks a stream up AFTER it has read an envelope: a body delivered while the stream was
+         \* registered and not consumed by the handler may still be in the read loop's hand when the handler returns and
+         \* unregisters - it is then answered with a reset like one delivered afterwards (found by the cross-layer check,
+         \* GoatImplObs: a behaviour of the design model that this rule used to reject; reproduced on the real code)
+         inHand == IF Len(its) > hnds[h].nrecv /\ its[Len(its)].k = "body" THEN 1 ELSE 0 IN
      sin' = IF hnds[h].kind # "unary" /\ Sin(id).st = "live" /\ Get(hOf, id, 0) = h
-              THEN Put(sin, id, [Sin(id) EXCEPT !.st = "closing"]) ELSE sin
+              THEN Put(sin, id, [Sin(id) EXCEPT !.st = "closing", !.may = @ + inHand]) ELSE sin
   /\ hnds' = [hnds EXCEPT ![h].ret = TRUE, ![h].rc = code, ![h].rmsg = msg, ![h].rndet = ndet, ![h].rpay = pay]
   /\ UNCHANGED <<cfg, phase, calls, byId, hi, gaps, cw, nSR, sw, nCR, cin, preq, hOf,
                  flt, creg, sreg, base, pend, live, cregN, parked>>
